@@ -123,6 +123,21 @@ def run(P: Program, R: Report, tier: str) -> None:
     casts = [s for s in ast.walk(f.node) if isinstance(s, ast.Assign) and "astype(" in norm(s.value)]
     wide = any("uint64" in norm(s.value) or "int64" in norm(s.value) for s in casts)
     R.check(wide, "R19.3", f, f.node, "labels are accumulated in a 64-bit integer array", "no widening cast", via="syntax")
+    # the widening is not optional: no path reaches the frame loop (where offsets are added) without it
+    from ..cfg import build_cfg
+
+    cfg = build_cfg(f.node)
+    wide_nodes = {cfg.node_of(s) for s in ast.walk(f.node) if isinstance(s, ast.Assign) and ("uint64" in norm(s.value) or "int64" in norm(s.value))
+                  and any(k in norm(s.value) for k in ("astype(", "asarray(", "np.array(", "dtype="))} - {None}
+    entry = next(n.id for n in cfg.nodes.values() if n.kind == "entry")
+    adds = [x for x in ast.walk(f.node) if isinstance(x, ast.For)]
+    for lp_ in adds[:1]:
+        ln = cfg.node_of(lp_)
+        if ln is None or not wide_nodes:
+            continue
+        R.check(not cfg.reachable(entry, ln, avoiding=wide_nodes), "R19.3", f, lp_, "every path into the frame loop has widened the labels to 64 bit",
+                "some path reaches the loop that adds the running offset without the widening cast: for a narrow unsigned input (uint8 / uint16) the "
+                "sum wraps around - a region becomes background or collides with a label of an earlier frame", via="cfg-must-pass")
     for r in [s for s in ast.walk(f.node) if isinstance(s, ast.Return) and s.value is not None]:
         txt = norm(r.value)
         R.check("astype(" not in txt or "int64" in txt, "R19.3", f, r, "the result is returned in the wide dtype",
